@@ -224,9 +224,16 @@ func (g *fnGen) execBlock(b *ssa.BasicBlock, st *state) {
 			g.havocAll(st)
 		case *ssa.Send:
 			ch := g.val(st, x.Chan)
-			g.val(st, x.X)
+			v := g.val(st, x.X)
 			arr := g.heapArray(st, "G!chanclosed", "(Array Int Bool)")
 			g.oblige(st, "chan", g.anchor(x.Pos(), "send"), x.Pos(), "", Not(S("select", arr, ch)), "send on closed channel")
+			g.bumpGhost(st, "G!chansends", ch)
+			if g.R.sortOf(x.X.Type()) == "Iface" {
+				la := g.heapArray(st, "G!chanlastsent", "(Array Int Iface)")
+				n := g.freshConst("G!chanlastsent", "(Array Int Iface)")
+				g.assert(S("=", n, S("store", la, ch, v)))
+				st.heap["G!chanlastsent"] = n
+			}
 		case *ssa.Select:
 			g.abstracted["select statement"] = true
 			for _, s := range x.States {
@@ -385,13 +392,24 @@ func (g *fnGen) execUnOp(st *state, x *ssa.UnOp) {
 	case token.XOR:
 		g.vals[x] = S("bvnot", g.val(st, x.X))
 	case token.ARROW:
-		g.val(st, x.X)
+		chv := g.val(st, x.X)
 		et := x.X.Type().Underlying().(*types.Chan).Elem()
 		v := g.freshConst("recv", g.R.sortOf(et))
 		g.typeFacts(st, v, et)
+		g.bumpGhost(st, "G!chanrecvs", chv)
+		if g.R.sortOf(et) == "Iface" {
+			la := g.heapArray(st, "G!chanlastrecv", "(Array Int Iface)")
+			n := g.freshConst("G!chanlastrecv", "(Array Int Iface)")
+			g.assert(S("=", n, S("store", la, chv, v)))
+			st.heap["G!chanlastrecv"] = n
+		}
 		if x.CommaOk {
 			ok := g.freshConst("recvok", "Bool")
 			g.assume(st, Imp(Not(ok), S("=", v, g.R.zero(et))))
+			oa := g.heapArray(st, "G!chanlastok", "(Array Int Bool)")
+			on := g.freshConst("G!chanlastok", "(Array Int Bool)")
+			g.assert(S("=", on, S("store", oa, chv, ok)))
+			st.heap["G!chanlastok"] = on
 			g.tuples[x] = []string{v, ok}
 		} else {
 			g.vals[x] = v
@@ -708,12 +726,20 @@ func (g *fnGen) guardObligation(st *state, p *guardProv, write bool, instr ssa.I
 	g.oblige(st, kind, p.decl.Struct+"."+p.field, instr.Pos(), "", goal, what+p.decl.Struct+"."+p.field+" requires "+p.decl.Struct+"."+p.decl.Mutex+" held"+map[bool]string{true: " exclusively", false: ""}[write])
 }
 
-func (g *fnGen) sharedWriteObligation(st *state, sd *SharedDecl, instr ssa.Instruction) {
+// State declared `shared` is reachable from several goroutines and has no
+// guard: under the lockset rule every access is an obligation that cannot
+// discharge (it is what a known finding names). Values stay stable, so the
+// sequential contracts of the same functions are still checked.
+func (g *fnGen) sharedAccessObligation(st *state, sd *SharedDecl, write bool, instr ssa.Instruction) {
 	name := sd.Name
 	if sd.Struct != "" {
 		name = sd.Struct + "." + sd.Name
 	}
-	g.oblige(st, "shared-write", name, instr.Pos(), "", "false", "write to shared state "+name+" with no guard")
+	kind, what := "shared-read", "read of"
+	if write {
+		kind, what = "shared-write", "write to"
+	}
+	g.oblige(st, kind, name, instr.Pos(), "", "false", what+" shared state "+name+" with no guard (another goroutine may access it concurrently)")
 }
 
 type assignLoc struct {
@@ -815,4 +841,11 @@ func sortedKeys(m map[string]bool) []string {
 	}
 	sort.Strings(ks)
 	return ks
+}
+
+func (g *fnGen) bumpGhost(st *state, name, key string) {
+	arr := g.heapArray(st, name, "(Array Int Int)")
+	n := g.freshConst(name, "(Array Int Int)")
+	g.assert(S("=", n, S("store", arr, key, S("+", S("select", arr, key), "1"))))
+	st.heap[name] = n
 }
